@@ -11,7 +11,7 @@ for mp in sorted(glob.glob("/verif/seeded/*/meta.json")):
     caught = []
     for r in runs:
         if r["exit"] == 1:
-            fps = sorted({"|".join(f.split("|")[1:3]) for f in r["fingerprints"]})
+            fps = sorted({" / ".join(x for x in f.split("|")[1:4] if x) for f in r["fingerprints"]})
             caught.append(f"{r['check']} ({'; '.join(fps)[:90]})")
     missed = [r["check"] for r in runs if r["exit"] != 1]
     c = ", ".join(caught) if caught else "—"
